@@ -20,7 +20,8 @@ incl. around 128 KiB and 4 MiB; layer options; compression level; 1..3 key pairs
 further stages among convert(other layers / keys / level) and repair(intact archive), then negative runs) executed with the \
 `mlar` binary built from the tree. Oracle after `create` and after every stage: `list` prints exactly the given paths; \
 `list -vv` shows the humansize-DECIMAL size and the SHA-256 of each file; `cat`, `extract` (whole archive and one listed \
-name, into directories that already hold a longer stale copy of a member), `to-tar` (output archives and tar files replace \
+name, into directories that already hold a longer stale copy of a member, the output directory being named plainly, \
+through a '..' component or through a symbolic link), `to-tar` (output archives and tar files replace \
 longer stale files in half of the cases) (parsed with the tar crate) return each file's exact bytes. Negative runs (wrong key, no key, key given for \
 an archive without encryption) on list / cat / extract / to-tar / convert / repair must exit non-zero and leave the output \
 file absent or empty. Non-trivial = pipeline with >= 2 stages on a tree with >= 1 empty file or nested directory; distinct \
@@ -180,14 +181,28 @@ fn verify(s: &Scratch, archive: &str, key: Option<&str>, expected: &BTreeMap<Str
     if let Some((n, data)) = expected.iter().nth(expected.len() / 3) {
         plant_stale(&d.join(&out1).join(n), data.len())?;
     }
-    let mut a = vec!["extract".to_string(), "-i".into(), archive.into(), "-o".into(), out1.clone()];
+    // the output directory is named plainly, through a '..' component, or through a symbolic link to it
+    let out1_arg = match util::hash64(format!("{tag}|{archive}|{}", expected.len()).as_bytes()) % 3 {
+        0 => out1.clone(),
+        1 => {
+            std::fs::create_dir_all(d.join(format!("via-{tag}"))).map_err(|e| format!("HARNESS: {e}"))?;
+            format!("via-{tag}/../{out1}")
+        }
+        _ => {
+            std::fs::create_dir_all(d.join(&out1)).map_err(|e| format!("HARNESS: {e}"))?;
+            let l = format!("ln-{tag}");
+            let _ = std::os::unix::fs::symlink(d.join(&out1), d.join(&l));
+            l
+        }
+    };
+    let mut a = vec!["extract".to_string(), "-i".into(), archive.into(), "-o".into(), out1_arg.clone()];
     a.extend(keyargs.clone());
     run_ok(&a, d, tag)?;
     for (n, data) in expected {
         match std::fs::read(d.join(&out1).join(n)) {
             Ok(x) if x == *data => {}
-            Ok(x) => return Err(format!("{tag}: `mlar extract` wrote {} bytes for {n:?}, the file has {}", x.len(), data.len())),
-            Err(e) => return Err(format!("{tag}: `mlar extract` did not produce {n:?}: {e}")),
+            Ok(x) => return Err(format!("{tag}: `mlar extract -o {out1_arg}` wrote {} bytes for {n:?}, the file has {}", x.len(), data.len())),
+            Err(e) => return Err(format!("{tag}: `mlar extract -o {out1_arg}` did not produce {n:?}: {e}")),
         }
     }
     // extract, one listed name
